@@ -851,6 +851,7 @@ func (ds *Dataset) updateDataset(newItemCount int64, entities []*Entity) error {
 
 func (ds *Dataset) GetChangesWatermark() (uint64, error) {
 	var waterMark uint64
+	hasChanges := false
 
 	err := ds.store.database.View(func(btxn *badger.Txn) error {
 		//txn := InstrumentedTxn(btxn, ds.store)
@@ -860,21 +861,34 @@ func (ds *Dataset) GetChangesWatermark() (uint64, error) {
 		binary.BigEndian.PutUint32(searchBuffer[2:], ds.InternalID)
 		searchBuffer[6] = 0xFF
 
+		// the change log keys of this dataset share the first 6 bytes. Seeking in reverse to
+		// the prefix followed by 0xFF lands on the last change of the dataset, if it has any.
+		datasetPrefix := searchBuffer[:6]
 		iteratorOptions := badger.DefaultIteratorOptions
 		iteratorOptions.Reverse = true
 		iteratorOptions.PrefetchValues = false
-		iteratorOptions.Prefix = searchBuffer
+		iteratorOptions.Prefix = datasetPrefix
 		changesIterator := txn.NewIterator(iteratorOptions)
 		defer changesIterator.Close()
 
-		changesIterator.Rewind()
+		changesIterator.Seek(searchBuffer)
+		if !changesIterator.ValidForPrefix(datasetPrefix) {
+			// no changes in this dataset yet: the key found (if any) belongs to something else
+			return nil
+		}
 		item := changesIterator.Item()
 		k := item.Key()
 
 		waterMark = binary.BigEndian.Uint64(k[6:14])
+		hasChanges = true
 
 		return nil
 	})
+
+	if !hasChanges {
+		// the next change of an empty dataset is its first one
+		return 0, err
+	}
 
 	// need to add one to point to next change in searches.
 	return waterMark + 1, err
